@@ -178,6 +178,29 @@ CHECKS = {
    note="Trusted: Lean kernel, standard axioms, harness; that Value()/literal() compile to placeholders is Django's / SQLAlchemy's behaviour, observed on the compiled statements. Known finding: autoescape "
         "adds ESCAPE '/' only for literal substrings with a wildcard (Lean witness kf_autoescape; consequence of fix e81d1f7).",
    design="§6 C08", technique="Lean 4 proof (parameters = literals, skeleton invariance, by structural induction with handler plans) + tie theorems on literal-handler source + differential compilation through the real shorthands"),
+ "C04": dict(
+   text="Lean 4: reference semantics of to-one paths (a missing related row behaves as null), any() / any(x: p) / all(x: p) over to-many and many-to-many collections and their "
+        "and/or/not compositions over a schema (Spec/RelSem.lean); models of what the two ORM visitors build - Django: owner path -> reverse_relationship -> sub-query correlated through the "
+        "reversed remote names, body made relative by IdentifierStripper, EXISTS / NOT EXISTS(NOT body); SQLAlchemy: one LEFT OUTER JOIN per traversed relationship, rel.any(body), "
+        "~rel.any(~body), bodies that navigate refused (Model/OrmRel.lean) - evaluated the way the ORMs evaluate them (Spec/OrmRelSem.lean). Theorems (Props/C04.lean when present): "
+        "reverse_reaches (the back path reaches the outer row IFF the child is one of the rows the forward path leads to), dj_sound, sa_sound, orms_agree, for every filter of the relational "
+        "grammar, every database with unique keys and every parent row. Executed on every run: every leaf of the relational grammar and seeded compositions on a shape database and random "
+        "databases through Django, select(Model) and session.query(Model); returned parents compared with Spec.evalR and with the plan models; four other root models whose collections / "
+        "relationships share names with the first one's, in sequence in one process.",
+   note="Trusted: Lean kernel, standard axioms, Spec/RelSem + Spec/RelElab (reference semantics, verification schema), Spec/OrmRelSem (environment model of the ORMs' join / EXISTS machinery, validated each run), harness. "
+        "Scalar leaves are C02 / C03's subject. Hypothesis lambdaClean (bodies two-valued on the related rows: the property quantifies over non-null child columns). Known finding: SQLAlchemy joins a table "
+        "twice without alias when two paths reach it. fix: 1659103 4c4c29b 10e169e f6a5118.",
+   design="§6 C04", technique="Lean 4 proof (graph reversal lemma for reverse_relationship, plan soundness by induction on lambda nesting, strip = re-rooting from C17) + differential execution of both ORMs against the relational reference semantics"),
+ "C15": dict(
+   text="Lean 4 theorems over the shorthands on an abstract query {entity, conditions, joins, ordering, annotations} (Model/Shorthand.lean): sa_conjoins / dj_conjoins (the result keeps exactly the base's rows "
+        "that satisfy the filter), sa_keeps / dj_keeps (existing conditions, joins, ordering, annotations, entity untouched), sa_no_double_join, sa_adds_needed, and registry_default_untouched "
+        "(importing the backend leaves every lookup in SQLAlchemy's _default function package unchanged - because each class of functions_ext.py declares package='odata' ITSELF, which the tie "
+        "theorem re-checks against the source and against the live registry on every run). Executed: 10 Django and 18 SQLAlchemy base queries (pre-filtered, pre-joined inner / outer on used and unused "
+        "relationships, two-step pre-joins with a same-named relationship, ordered, annotated, legacy Query, select(table)) x 15 filters x databases: ids and order compared with base-ids ∩ "
+        "Spec.RelSem, JOIN counts, and sqlalchemy.func.<12 names> class / type / SQL before and after the import in two fresh processes.",
+   note="Trusted: Lean kernel, standard axioms, Spec/RelSem, harness; the abstract query model is tied to the real shorthands by the differential run only (the ORMs' query objects are not modelled). "
+        "fix: 10e169e (INNER JOIN dropped base rows).",
+   design="§6 C15", technique="Lean 4 proof (list-level conjoin / keep / join-loop lemmas; registry non-interference from a tie theorem on the classes' own package attribute) + differential execution over base-query shapes + fresh-process registry probes"),
 }
 NOT_APPLICABLE = {}
 
